@@ -42,6 +42,6 @@ def translate(repo):
     items.append(shape("send", func_shape(send)))
     items.append(shape("recv", func_shape(find_func(cls, "recv"))))
     items.append(shape("__init__", func_shape(find_func(cls, "__init__"))))
-    for nm in ("close", "poll", "fileno"):
+    for nm in ("close", "poll", "fileno", "closed"):
         items.append(shape(nm, func_shape(find_func(cls, nm))))
     return items
